@@ -406,7 +406,19 @@ func ruleMapRange(c *Ctx) []Obligation {
 								continue // a helper whose only effect is m[k] = v with k the range key
 							}
 							if g.Reach(cal)[reg] {
-								report(x.Pos(), "call "+calleeName(cc)+" may reach the registration function",
+								// which value is handed to the callee: the range key, the range value, or something else
+								onWhat := ""
+								if cc.IsInvoke() {
+									switch stripConv(cc.Value) {
+									case ml.key:
+										onWhat = " on the range key"
+									case ml.val:
+										onWhat = " on the range value"
+									default:
+										onWhat = " on " + collectionShape(a, cc.Value)
+									}
+								}
+								report(x.Pos(), "call "+calleeName(cc)+onWhat+" may reach the registration function",
 									"import names are assigned in registration order; registering inside a map range makes aliases depend on map iteration order (via %s)", fname(cal))
 								break
 							}
